@@ -126,7 +126,12 @@ def gen(rng):
             G.add_trashed(steps, other_td, 'neighbour', 'docs/neighbour', '2021-01-01T01:01:01', 'file', tag='o')
     else:
         tdir, top, _u = rng.choice(locs)
-        if top is not None and rng.random() < 0.5:
+        if top is not None and '/.Trash-' in tdir and L['trash'][top]['alt'] == 'absent' and rng.random() < 0.15:
+            # $topdir/.Trash-$uid is a symlink to a directory of the same volume (.Trash-1001 -> .Trash-1000 on a disk shared by two
+            # accounts of one person): trash-put fills it - every reader reads it
+            steps.append(['d', top + '/.Trash-shared', 0o700])
+            steps.append(['l', tdir, rng.choice(['.Trash-shared', top + '/.Trash-shared'])])
+        elif top is not None and rng.random() < 0.5:
             # the volume's OTHER trash directory exists as well (the administrator created $topdir/.Trash after the first
             # put, or removed its sticky bit's reason to be...): every command reads both
             other_ = (top + '/.Trash-%d' % uid) if '/.Trash/' in tdir else (top + '/.Trash/%d' % uid)
